@@ -12,32 +12,121 @@ from vlib import fxpgen
 
 ID = 'C03'
 LEVEL = 'exploration'
-RULE = ('generated (m,t,PRSS) [45% m=1, rest progs.config()] x SecFxp(l,f) (as C02) x 1..10 records: the scalar C02 '
-        'operations on whole/non-whole operands (flag passed explicitly with mpc.input, or inferred by the constructor '
-        'for int/float constants), scalar abs/sgn/min/max/if_else, and list operations vector_add/sub, scalar_mul, '
-        'schur_prod (also x is y), in_prod, sum, prod, if_else/if_swap on lists, matrix_prod (tr on/off), list input, '
-        'min/max/sorted, seclist get/set/del/pop/insert with secret index; lists of 1..4 elements with patterns '
-        'all-integral / none flagged / mixed with element 0 unflagged / mixed with element 0 flagged (the F3 class, '
-        '~1/8 of lists), and chains where a list result feeds a product, sum, comparison or secret-index access. '
-        'Oracle: every opened object: flag True => whole; value within the C02 tolerance of the exact reference; '
-        'parties agree. non-trivial = a list operand with elements of differing flags, or a computed result flagged '
-        'integral; distinct by case hash')
+RULE = ('generated (m,t,PRSS) [35% m=1, else progs.config() m 2..7, mostly t>=1] x SecFxp(l,f) (as C02) x 1..12 records: the '
+        'scalar C02 operations on whole/non-whole operands (flag passed explicitly with mpc.input, or inferred by the '
+        'constructor for int/float constants), abs/sgn/min/max/if_else, << by 0..f+2 bits, convert round trips, operands '
+        'whose flag is None (results of trunc, sin/cos, convert; also as divisors), and list operations vector_add/sub, '
+        'scalar_mul, schur_prod (also x is y), in_prod (also x is y), sum, prod (2..5 factors), if_else/if_swap on lists, '
+        'matrix_prod (tr on/off), list input, min/max/sorted, seclist get/set/del/pop/insert with secret index; lists of '
+        '1..5 elements with patterns all-integral / none flagged / element 0 unflagged / element 0 flagged and another not '
+        '(the F3 class; ~1/8 of the lists of element-0-copying operations) / independent flags (operations outside that '
+        'class), and chains where a list result feeds a product, sum, comparison or secret-index access; plus enumerated '
+        'cells: every assignment of non-whole / whole unflagged / whole flagged to the elements of 2-3 element lists '
+        '(2-4 for seclists, every secret index) for each list operation at fixed values, split by a static F3-class '
+        'predicate (records predicted outside the class must pass). Oracle: every '
+        'opened object (inputs, intermediates, results, list elements): flag True => whole; value within the C02 tolerance '
+        'of the exact reference; parties agree. non-trivial = a list operand with elements of differing flags, or a computed '
+        'result flagged integral; distinct by case hash')
 ASSUMPTIONS = ['the public flag integral= is passed identically by all parties (API contract); it is only set on whole values',
+               'sec_param k=30; value failures of list-operation truncations on raw values below -2^(l-1) (probability about |raw|/2^(k+l)) are matched to the known finding F3a',
                'C02 preconditions (range, f=l//2 for division); records inside the C02 known classes F6/F7 are not run here',
                'conditions of if_else/if_swap and secret indices are whole numbers flagged integral (required by the API)',
                'tolerances for operations the C02 statement does not name: dot products n units, prod (k-1)*prod(1+|a_i|) units, '
                'selection (min/max/if_else/sorted/seclist updates) the sum of the clause tolerances of the products involved']
-CASE_TIMEOUT = 150
+CASE_TIMEOUT = 900  # wall-clock watchdog for hangs only; the heaviest cases take seconds on an idle machine
 
 boot(numpy=False)
 
 WEIGHTS = {'add': 3, 'neg': 1, 'cmp': 2, 'mul': 5, 'mulint': 2, 'mulfloat': 4, 'div': 1, 'divp': 1, 'trunc': 1,
            'pow': 2, 'comp': 2, 'comp_cmp': 2, 'const': 3, 'scalar_sel': 3, 'list_lin': 6, 'list_mul': 7, 'matprod': 3,
-           'seclist': 4, 'order': 2, 'chain': 7, 'lshift': 2, 'noneflag': 4, 'sincos_small': 1}
+           'seclist': 4, 'order': 2, 'chain': 7, 'lshift': 2, 'noneflag': 4, 'sincos_small': 1, 'prod': 3}
 
 
 def budget(tier):
-    return dict(shards=16, examples=110 if tier == 'quick' else 1500)
+    return dict(shards=16, examples=300 if tier == "quick" else 2000)
+
+
+def _static_exposed(rec):
+    """F3 class predicate evaluated on the (static) flags of literal lists: mirrors vlib.fxp.Interp.expose."""
+    def fl(L):
+        return [bool(e[3]) for e in L[1:]]
+
+    def mixed(flags):
+        return flags[0] and not all(flags[1:])
+    op = rec[0]
+    if op in ('vadd', 'vsub'):
+        a, b = fl(rec[1]), fl(rec[2])
+        return a[0] and b[0] and not all(a[1:] + b[1:])
+    if op in ('ifelse_l', 'ifswap_l'):
+        a, b = fl(rec[2]), fl(rec[3])
+        return a[0] and b[0] and not all(a[1:] + b[1:])
+    if op == 'smul':
+        return bool(rec[1][3]) and mixed(fl(rec[2]))
+    if op == 'schur':
+        return mixed(fl(rec[1])) or mixed(fl(rec[2]))
+    if op == 'schur_self':
+        return mixed(fl(rec[1]))
+    if op == 'inl':
+        return mixed([bool(it[1]) for it in rec[1]])
+    if op == 'matprod':
+        A = [x for row in rec[1][1:] for x in fl(row)]
+        B = [x for row in rec[2][1:] for x in fl(row)]
+        return mixed(A) or mixed(B)
+    if op in ('sl_del', 'sl_pop'):
+        a = fl(rec[1])
+        return len(a) >= 3 and a[0] and a[1] and not all(a[2:])
+    return False
+
+
+def enumerate_cases(tier):
+    """Every assignment of {non-whole, whole unflagged, whole flagged} to the elements of 2- and 3-element lists
+    (2..4 for secure lists) for each list operation, at fixed values: cells of records outside the F3 class
+    (predicted statically) and, separately, cells of records inside it."""
+    import itertools
+    types = [(16, 8)] if tier == 'quick' else [(16, 8), (9, 4), (41, 20)]
+    for l, f in types:
+        one = 1 << f
+
+        def S(raw, fl=False):
+            return ['s', raw, 0, fl]
+
+        def mk(flags, base=3):
+            return ['list'] + [S((base + i) * one + (5 if k == 0 else 0), k == 2) for i, k in enumerate(flags)]
+        recs = []
+        for n in (2, 3):
+            pats = list(itertools.product([0, 1, 2], repeat=n))
+            for fa in pats:
+                A = mk(fa)
+                recs += [['schur_self', A], ['inprod_self', A], ['sum', A], ['prod', A],
+                         ['inl', [[e[1], e[3]] for e in A[1:]], 0], ['minl', A], ['sorted', A]]
+                for sf in (0, 2):
+                    recs.append(['smul', S(2 * one + (3 if sf == 0 else 0), sf == 2), A])
+                for fb in pats:
+                    B = mk(fb, 5)
+                    recs += [['vadd', A, B], ['vsub', A, B], ['schur', A, B], ['inprod', A, B],
+                             ['ifelse_l', S(one, True), A, B], ['ifswap_l', S(0, True), A, B]]
+                    if n == 2:
+                        recs += [['matprod', ['matrix', A], ['matrix', B], True],
+                                 ['matprod', ['matrix', A, B], ['matrix', B, A], False]]
+        for n in (2, 3, 4):
+            for fa in itertools.product([0, 1, 2], repeat=n):
+                L = mk(fa)
+                for idx in range(n):
+                    ix = S(idx * one, True)
+                    recs += [['sl_get', L, ix], ['sl_del', L, ix], ['sl_pop', L, ix]]
+                    for vf in (0, 2):
+                        V = S(9 * one + (7 if vf == 0 else 0), vf == 2)
+                        recs += [['sl_set', L, ix, V], ['sl_ins', L, ix, V]]
+        safe = [r for r in recs if not _static_exposed(r)]
+        inclass = [r for r in recs if _static_exposed(r)]
+        size = 120
+        for k, part in (('outside-F3', safe), ('inside-F3', inclass)):
+            for i in range(0, len(part), size):
+                yield dict(m=1, t=0, prss=True, l=l, f=f, seed=i, recs=part[i:i + size], grid=k)
+        # the same records with real sharings: a sample of both parts
+        for i in range(0, len(safe), 16 * size):
+            yield dict(m=3, t=1, prss=bool((i // size) % 2), l=l, f=f, seed=i, recs=safe[i:i + 40], grid='outside-F3')
+        yield dict(m=3, t=1, prss=True, l=l, f=f, seed=1, recs=inclass[:30], grid='inside-F3')
 
 
 def strategy(tier):
@@ -45,4 +134,12 @@ def strategy(tier):
 
 
 def run_case(case):
-    return fxpgen.run_case(case, 'C03', skip_known_classes=True)
+    out = fxpgen.run_case(case, 'C03', skip_known_classes=True)
+    if case.get('grid'):
+        out.n = len(case['recs'])
+        out.labels.append('grid:' + str(case['grid']))
+        if case['grid'] == 'outside-F3' and not out.ok and out.known:
+            # the static class predicate says these records are outside F3: a failure here is not the known finding
+            out.known = None
+            out.detail = 'failure in a record predicted to be outside the F3 class: ' + out.detail
+    return out
